@@ -166,3 +166,33 @@ def instance_obligations(ctx, pid, which=('types', 'flags', 'tables')):
     ctx.extra.setdefault('generated_tables', {})['config'] = {'simple_types': len(cfg['simple']), 'flags': len(cfg['flags']),
                                                               'masks': cfg['masks'], 'packet_tables': {k: len(v) for k, v in tabs.items()}}
     return cfg, tabs
+
+
+def container_obligations(ctx):
+    """keys, magic and extension whitelist of replay_reader.py -> GenContainer.v + instance theorems"""
+    problems = []
+    from replay_unpack import replay_reader as rr
+    rows = []
+    for ext, key in rr.TYPE_TO_KEY.items():
+        if not isinstance(key, (bytes, bytearray)) or not (1 <= len(key) <= 56): problems.append('key for %s not understood' % ext); continue
+        rows.append((ext, list(key)))
+    if set(rr.ALLOWED_TYPES) != set(rr.TYPE_TO_KEY): problems.append('ALLOWED_TYPES differs from the key table')
+    games = {}
+    # game names by extension: read from the source of get_replay_data (constants WOWS_REPLAY etc.)
+    for ext, game in ((rr.WOWS_REPLAY, 'wows'), (rr.WOT_REPLAY, 'wot'), (rr.WOWP_REPLAY, 'wowp')): games[ext] = game
+    with common.Lock('gen'):
+        os.makedirs(GEN_DIR, exist_ok=True)
+        L = ['(* GENERATED by tools/gen_const.py from replay_unpack/replay_reader.py *)',
+             'From RU Require Import Base Container.', 'Open Scope N_scope. Open Scope string_scope.',
+             'Definition gen_magic : list N := [%s].' % '; '.join(str(b) for b in rr.REPLAY_SIGNATURE),
+             'Definition gen_keys : list (string * (string * list N)) := [%s].' % '; '.join(
+                 '(%s, (%s, [%s]))' % (coq_str(e), coq_str(games.get(e, '?')), '; '.join(map(str, k))) for e, k in sorted(rows))]
+        open(os.path.join(GEN_DIR, 'GenContainer.v'), 'w').write('\n'.join(L) + '\n')
+        I = ['From RU Require Import Base Container InstLib.', 'From Gen Require Import GenContainer.', 'Open Scope N_scope. Open Scope string_scope.',
+             'Theorem inst_magic : gen_magic = map b2n magic.', 'Proof. reflexivity. Qed.',
+             'Theorem inst_keys : forall k, assoc_get k gen_keys = assoc_get k key_table.', 'Proof. apply tables_agree. repeat constructor. Qed.']
+        open(os.path.join(GEN_DIR, 'Inst_C01.v'), 'w').write('\n'.join(I) + '\n')
+        ctx.obligation('translator gen_const understands replay_reader.py', not problems, '; '.join(problems))
+        ok, out = common.coqc(os.path.join(GEN_DIR, 'GenContainer.v'), extra_q=[(GEN_DIR, 'Gen')])
+        ctx.obligation('GenContainer.v compiles', ok, out[-800:])
+        if ok: ctx.coq_props(os.path.join(GEN_DIR, 'Inst_C01.v'), extra_q=[(GEN_DIR, 'Gen')])
